@@ -189,7 +189,7 @@ func init() {
 	})
 }
 
-var benignParams = []map[string]string{nil, nil, {"a": "{a: Int32}"}, {"k": "{k: String}", "n": "{n: Int64}"}, {"true": "{t: Bool}", "Col9": "{c9: Int32}"}}
+var benignParams = []map[string]string{nil, nil, {"a": "{a: Int32}"}, {"k": "{k: String}", "n": "{n: Int64}"}, {"true": "{t: Bool}", "Col9": "{c9: Int32}"}, {"L1": "{l1: Int32}", "n": "{n: Int64}"}, {"T": "{t: String}", "L2": "'x'"}}
 
 func TestC05Programs(t *testing.T) {
 	st := harn.NewStats(env, "programs")
